@@ -50,7 +50,9 @@ def proxy_script(kind):
 FIRST_ONLY = ["refused"]
 
 POLICIES = ["passive", "close@connected", "close@ready", "close@message", "close@poll",
-            "close@closing", "send@every", "send@closing", "send@after_closing"]
+            "close@closing", "send@every", "send@closing", "send@after_closing",
+            # the application's handler takes its time (longer than any poll interval used here)
+            "slow@poll", "slow@message"]
 
 OPTION_SETS = [
     {},
@@ -123,6 +125,10 @@ def policy_reactions(policy):
         return [{"when": ["event", "poll", 0], "do": [["close"]]}]
     if policy == "close@closing":
         return [{"when": ["event", "closing", 0], "do": [["close", 1000, ""]]}]
+    if policy == "slow@poll":
+        return [{"when": ["event", "poll", 0], "do": [["sleep", 7.5]]}, {"when": ["event", "poll", 1], "do": [["sleep", 0.75]]}]
+    if policy == "slow@message":
+        return [{"when": ["msg", 0], "do": [["sleep", 7.5], ["send_text", "done at last"]]}]
     if policy == "send@every":
         return [{"when": ["every"], "do": send}]
     if policy == "send@closing":
@@ -219,8 +225,8 @@ class C07(Prop):
     rule = ("bounded exhaustive: every sequence of `depth` server steps over a 23-symbol alphabet (handshake variants, "
             "data/control/invalid frames, a frame exactly as long as the 64 KiB receive buffer, close, half frame, silences, EOF, reset, a fatal TLS error or routing failure that every "
             "later read repeats (wss://); connection refused as first step); the same through an HTTP proxy that answers 200, refuses, "
-            "stalls, drops or resets during the CONNECT exchange (ws and wss targets) x 9 "
-            "application policies x 2 option sets, each ending in EOF; depth 3 in quick, 4 in thorough. Hypothesis: scripts of up "
+            "stalls, drops or resets during the CONNECT exchange (ws and wss targets) x 11 "
+            "application policies (incl. handlers that take longer than the poll interval) x 2 option sets, each ending in EOF; depth 3 in quick, 4 in thorough. Hypothesis: scripts of up "
             "to 40 steps with per-event reaction plans and random timer settings. Oracle: a monitor for the event grammar "
             "(Connecting first; ConnectFail-and-stop or Connected; Ready once, after Connected; message/Poll/Closing/Closed only "
             "after Ready; exactly one terminal event, last; StopIteration afterwards; no exception escapes) plus termination "
